@@ -678,9 +678,9 @@ func Input(l *InputSharedVars, g *GlobalVarsMain, hPath *HFilePath, driConfig *C
 						}
 					}
 
-					for i := 1; i <= NRTIL; i++ {
-						if g.EINTE[i+1] == g.EINTE[i] {
-							g.EINTE[i+1] = g.EINTE[i+1] + 1
+					for i := 1; i < NRTIL; i++ {
+						if g.EINTE[i+1] <= g.EINTE[i] {
+							g.EINTE[i+1] = g.EINTE[i] + 1
 						}
 					}
 				}
@@ -710,10 +710,10 @@ func Input(l *InputSharedVars, g *GlobalVarsMain, hPath *HFilePath, driConfig *C
 						}
 
 					}
-					for i := 1; i <= NDu; i++ {
+					for i := 1; i < NDu; i++ {
 						index := i - 1
-						if g.ZTDG[index+1] == g.ZTDG[index] {
-							g.ZTDG[index+1] = g.ZTDG[index+1] + 1
+						if g.ZTDG[index+1] <= g.ZTDG[index] {
+							g.ZTDG[index+1] = g.ZTDG[index] + 1
 						}
 					}
 					for i := 1; i < NDu; i++ {
